@@ -788,6 +788,27 @@ func (f *Frame) havocArgs(c *ssa.CallCommon, args []Value) {
 			e.storeAddr(f.st, a.Addr, fv)
 			continue
 		}
+		if a.Clo != nil {
+			// a function literal handed to the callee (sqlparser.Walk(func…), sort.Slice(…, func…)): the callee may run
+			// it, so the variables it captures by reference may change
+			for bi, b := range a.Clo.bindings {
+				if bi >= len(a.Clo.fn.FreeVars) {
+					break
+				}
+				bt := a.Clo.fn.FreeVars[bi].Type()
+				switch bt.Underlying().(type) {
+				case *types.Pointer, *types.Slice, *types.Map:
+					if b.Addr != nil {
+						fv := e.havoc("esc", e.sortOf(b.Addr.typ))
+						e.assumeExisting(f.st, tTrue, fv, b.Addr.typ)
+						e.storeAddr(f.st, b.Addr, fv)
+					} else if b.T.S != "" && !isByteSlice(bt) {
+						f.havocValue(b.T, bt, 0)
+					}
+				}
+			}
+			continue
+		}
 		if mi, ok := c.Args[i].(*ssa.MakeInterface); ok {
 			// a pointer / slice / map converted to an interface right at the call (json.Unmarshal(data, &x),
 			// decoder.Decode(&x)): the callee reaches the pointee through the interface value
@@ -1297,6 +1318,17 @@ func (f *Frame) callEffects(c *ssa.CallCommon, eff *effects, seen map[*ssa.Funct
 	}
 	writes := writesByteArgs(name)
 	for _, a := range c.Args {
+		if mc, ok := a.(*ssa.MakeClosure); ok {
+			// the callee may run the function literal: what it captures by reference may change
+			for _, b := range mc.Bindings {
+				f.typeEffects(b.Type(), eff, 0)
+			}
+			continue
+		}
+		if mi, ok := a.(*ssa.MakeInterface); ok {
+			f.typeEffects(mi.X.Type(), eff, 0)
+			continue
+		}
 		if !writes && isByteSlice(a.Type()) {
 			continue
 		}
